@@ -611,14 +611,16 @@ impl ServerEvent {
         ctx: &mut ClientReceiveCtx,
         message: &mut Bytes,
     ) -> Result<E> {
-        let event = unsafe {
+        let result = unsafe {
             self.event_fns
                 .typed::<ServerSendCtx, ClientReceiveCtx, E, I>()
-                .deserialize(ctx, message)?
+                .deserialize(ctx, message)
         };
 
+        // Checked even if deserialization failed to avoid leaking
+        // unmapped entities into the next event.
         if ctx.invalid_entities.is_empty() {
-            Ok(event)
+            result
         } else {
             let msg = format!(
                 "unable to map entities `{:?}` from the server, \
